@@ -33,7 +33,7 @@ type Msg struct {
 // NewMsg builds message number idx (message_seq base+idx) of the given length. Every body byte is
 // distinct per position and per message so any mis-assembly changes the popped bytes.
 func NewMsg(base uint16, idx, length int) Msg {
-	m := Msg{Seq: base + uint16(idx), Typ: byte(11 + idx), Epoch: uint16(idx), Body: make([]byte, length)}
+	m := Msg{Seq: base + uint16(idx), Typ: byte(11 + idx), Epoch: uint16(idx + 1), Body: make([]byte, length)}
 	for i := range m.Body {
 		m.Body[i] = byte(0x40*(idx+1) + i + 1)
 	}
